@@ -59,6 +59,10 @@ func main() {
 							globals[obj] = true
 							out = append(out, fmt.Sprintf("globalvar %s %s %s", fname, n.Name, typeClass(obj.Type())))
 						}
+						// a process-wide random generator object (a run must draw from its own)
+						if ts := obj.Type().String(); strings.Contains(ts, "math/rand.Rand") || strings.Contains(ts, "math/rand.Source") {
+							out = append(out, fmt.Sprintf("globalrand %s:var %s %s", fname, n.Name, ts))
+						}
 					}
 				}
 			}
